@@ -79,6 +79,17 @@ def gen(ctx, keys=False):
             main = "".join(mixed + rest)
             main += "13%02x" % (len(main) // 2 + 2)
             nsteps = max(nsteps, 2 * len(lcd) + 8)
+        if rng.random() < 0.08:
+            # a request that arrives inside a handler while its source is masked, and is unmasked by the main program later:
+            # one main-timer delivery (long period), the ON key pressed around it, the key source enabled only near the loop's end
+            main = "ccfb81" + "00" * rng.randint(10, 14) + "ccfb89" + "000000"
+            main += "13%02x" % (len(main) // 2 + 2)
+            handler = "00" + "ccfc00" + "00" * rng.randint(3, 6) + "01"
+            imr0, ten, mti, sti = 0x81, 1, rng.choice([20, 24, 30]), 0
+            nsteps = mti + 24
+            ev = f"{rng.randint(mti - 2, mti + 9)}:onk"
+            cases.append((imr0, ten, mti, sti, main, handler, nsteps, ev))
+            continue
         ev = ",".join(evs) or "-"
         cases.append((imr0, ten, mti, sti, main, handler, nsteps, ev))
     return cases
